@@ -525,3 +525,6 @@ LEVEL_NOTE = ('Quantifier: the theorems cover stacks of any depth (the property 
 #   draw_target/mod.rs DrawTargetExt::cropped pre-clipping the area to an origin box; Translated::clear filling its own
 #                (translated) bounding box on the parent; ColorConverted::clear as fill_solid(parent box) (same pixels,
 #                different call: reported by the call log as correspondence-broken)
+# Round 3 (API entry points): Pixel::draw drawing at p+(1,0): 158-177 correspondence / 88-110 search lines per seed;
+#   PixelIteratorExt::draw dropping the first pixel: 263-280 / 80-116; IntoPixels over a transposed area (width/height
+#   swapped): 481-501 / 486-495 (tinto / p_into_pixels; ./check C01 does not see it: both kinds of target are affected alike)
